@@ -451,6 +451,7 @@ pub fn check_main(make: &dyn Fn(&str) -> Option<Box<dyn Engine>>, prop: &str, ti
     let mut samples: Vec<Value> = vec![];
     let mut completed_bound: Option<u64> = None;
     let mut any_timeout = false;
+    let mut partial_bounds: Vec<Option<u64>> = vec![];
     for r in &results {
         evaluations += r["evaluations"].as_u64().unwrap_or(0);
         skipped += r["skipped"].as_u64().unwrap_or(0);
@@ -476,17 +477,18 @@ pub fn check_main(make: &dyn Fn(&str) -> Option<Box<dyn Engine>>, prop: &str, ti
                 samples.push(s.clone());
             }
         }
-        if r["total_cases_in_part"].as_u64().unwrap_or(0) > 0 {
+        if r["timed_out"].as_bool().unwrap_or(false) {
             let cb = r["completed_bound"].as_u64();
-            completed_bound = match (completed_bound, cb) {
-                (None, x) => x,
-                (Some(a), Some(b)) => Some(a.min(b)),
-                (Some(_), None) => None,
-            };
-            if cb.is_none() {
-                completed_bound = None;
-            }
+            partial_bounds.push(cb);
         }
+    }
+    let max_bound = plan.cases.iter().map(|c| c["bound"].as_u64().unwrap_or(0)).max().unwrap_or(0);
+    if partial_bounds.is_empty() {
+        completed_bound = Some(max_bound);
+    } else if partial_bounds.iter().all(|b| b.is_some()) {
+        completed_bound = partial_bounds.iter().map(|b| b.unwrap()).min();
+    } else {
+        completed_bound = None;
     }
     // Violations: shortest first, confirm by replay, match known findings.
     violations.sort_by_key(|v| v["case"].to_string().len());
